@@ -199,7 +199,9 @@ var ckinds = []struct {
 	{"ConjTranspose2(cdense)", func(b *cbuilder, l *clogical) mat.CMatrix {
 		return mat.ConjTranspose{CMatrix: mat.ConjTranspose{CMatrix: b.dense(l)}}
 	}},
-	{"cbasic", func(b *cbuilder, l *clogical) mat.CMatrix { return &cbasic{l.r, l.c, append([]complex128(nil), l.v...)} }},
+	{"cbasic", func(b *cbuilder, l *clogical) mat.CMatrix {
+		return &cbasic{l.r, l.c, append([]complex128(nil), l.v...)}
+	}},
 	{"cbasic.H", func(b *cbuilder, l *clogical) mat.CMatrix {
 		lt := l.conjT()
 		return (&cbasic{lt.r, lt.c, lt.v}).H()
